@@ -38,7 +38,8 @@ META = {
     "level_note": SCOPE + " Trusted: TLC; the transcription of Cassandra's serializers (BigInteger.toByteArray, "
                   "VIntCoding, CollectionSerializer, TupleType, VectorType) into Codec.tla; tinyint/smallint/date/time as "
                   "vector elements are left out (their fixed/variable status differs between Cassandra releases); "
-                  "vectors only on v3+; the harness's mapping of abstract values to Python objects (harness/replay/codec.py).",
+                  "vectors only on v3+; the bytes written for a null element inside a list/set/map are recorded, not judged (no unique "
+                  "reference: Cassandra refuses them on write); the harness's mapping of abstract values to Python objects (harness/replay/codec.py).",
     "design_ref": "5.7 C01 / C02",
 }
 
@@ -50,6 +51,7 @@ def run(ctx):
         return
     groups = {}
     cases = []
+    open_outcomes = {}
     for label, states in runs:
         for st in states:
             cases.append(st)
@@ -57,6 +59,9 @@ def run(ctx):
             devs = []
             if st["expect"] in ("ok", "raise"):
                 devs += codec.judge_encode(drv, st)
+                if st["expect"] == "ok" and "null-collection-element" in codec.features(st["ty"], st["val"]):
+                    oc = codec.encode_null_element_outcome(drv, st)
+                    open_outcomes[oc] = open_outcomes.get(oc, 0) + 1
             if st["expect"] != "raise":
                 devs += codec.judge_decode(drv, st)
             ctx.traces_validated += 1
@@ -70,6 +75,7 @@ def run(ctx):
     ctx.note("exhaustive", True)
     ctx.note("cases_per_family", fam)
     ctx.note("structural_features", feats)
+    ctx.note("null_collection_element_encoding_recorded_not_judged", open_outcomes)
     ctx.note("rule", "one case = one TLC state (type tree, protocol version, abstract value | out-of-range number | "
                      "null/empty cell); distinct by the whole case; non-trivial = a composite with at least one element, "
                      "a scalar whose encoding has more than one byte, or an expectation other than a plain encoding")
@@ -85,7 +91,7 @@ def run(ctx):
     codec.check_witnesses(ctx, tlc)
 
     # binding self-test: a corrupted expectation must be noticed in both halves, a refusal must be demanded
-    probe = next(s for s in cases if s["expect"] == "ok" and s["ty"] == ["list", ["varint"]] and len(s["val"]) == 2)
+    probe = next(s for s in cases if s["expect"] == "ok" and s["ty"] == ["list", ["varint"]] and len(s["val"]) == 2 and all(s["val"]))
     bad = dict(probe)
     bad["enc"] = probe["enc"][:-1] + [(probe["enc"][-1] + 1) % 256]
     bad2 = dict(probe)
